@@ -190,6 +190,9 @@ pub enum Style {
     FlagsLast,
     /// every unused flag spelled out as `false`
     FlagsFalse,
+    /// `"upgrade": true` on every request to a method that does not upgrade the connection: the flag is a
+    /// wish, the method decides; such a request is answered like any other and the connection goes on
+    UpgradeWish,
 }
 
 /// Build the request object for symbol `s` at sequence index `i` (tokens are unique per index).
@@ -292,6 +295,15 @@ pub fn encode(req: &Value, style: Style) -> Vec<u8> {
                 if !m.contains_key(k) {
                     m.insert(k.to_string(), Value::Bool(false));
                 }
+            }
+            serde_json::to_vec(&Value::Object(m)).unwrap()
+        }
+        Style::UpgradeWish => {
+            let o = req.as_object().unwrap();
+            let mut m = o.clone();
+            let upgrading = m.get("method").and_then(|x| x.as_str()).map(|x| x.ends_with(".Upgrade")).unwrap_or(false);
+            if !upgrading && !m.contains_key("upgrade") {
+                m.insert("upgrade".to_string(), Value::Bool(true));
             }
             serde_json::to_vec(&Value::Object(m)).unwrap()
         }
